@@ -39,6 +39,13 @@ CloseVerdict(r) ==
     ELSE IF r.mutating_calls_after_drop > 0 \/ ~r.dir_unchanged
            THEN V("C17", "operations after the drop still change the directory")
     ELSE IF r.bg_gone_ms < 0 THEN V("C17", "the background worker thread does not exit after the drop (" \o r.kind \o ")")
+    \* with no operation in flight at the drop (worker asleep, or woken but not yet inside merge/sync),
+    \* background work that starts after the drop must be refused too: the directory stays as it was
+    ELSE IF (r.kind = "idle" \/ (r.kind = "at-point" /\ r.input.point \in {"bg.merge.woke", "bg.merge.triggered", "bg.sync.woke"}))
+              /\ Has(r, "changed_between_drop_and_worker_exit")
+              /\ Has(r, "drop_done_before_release") /\ r.drop_done_before_release
+              /\ (r.changed_between_drop_and_worker_exit \/ r.mutating_calls_between_drop_and_worker_exit > 0)
+           THEN V("C17", "background work that started after the drop changed the directory (" \o r.kind \o ")")
     ELSE IF r.reopen # "ok" THEN V("C17", "the directory cannot be opened again at once: " \o r.reopen)
     ELSE IF Has(r, "inflight") /\ r.inflight \notin {"ok", "closed"} THEN V("C17", "the operation in flight at the drop failed: " \o r.inflight)
     ELSE OK
